@@ -3,6 +3,10 @@
 import json, subprocess
 ALL = ["C%02d" % i for i in range(1, 21)]
 CHECKS = {
+ "C17": dict(cat="model_checking", ref="§5 C17, §4.9",
+   text="ImageVol.tla: versioned map block -> write id with intended extents; Step is the action for write(version, api raw|blocks, mutate, box, roi) and newversion; TLC explores every sequence of <=2 block-aligned writes and version steps on a 2x2x1 block lattice (Inv_C17_State, Inv_C17_RunAgrees, Act_C17_Step) and prints every maximal behaviour with the expected per-version block map, extents and written hull; ImageVol_cases.tla evaluates Go-seeded longer sequences (3-9 requests, 3x2x2 lattice, up to 4 versions). Every behaviour is replayed on real imageblk instances (six voxel types, several block sizes incl. anisotropic, negative origins): written voxels equal f(write id,x,y,z) bit for bit through GET raw 3-D, XY/XZ/YZ PNG slices, blocks, subvolblocks, specificblocks; unwritten voxels read as background; info/metadata extents cover written voxels; ROI-restricted writes change only blocks in the ROI; other versions unchanged. A direct ReadBlock/WriteBlock sweep covers sub-block offset classes.",
+   note="Exhaustive TLC depth is 2 writes (3 was too slow); deeper histories are seeded sequences evaluated by TLC. Sub-block offset arithmetic is seeded exploration against the same oracle. Lossy/isotropic reads not checked. Replay is time-budgeted; unreplayed behaviours are counted in the evidence.",
+   tech="TLC exhaustive exploration of ImageVol.tla + replay of every behaviour into real imageblk instances; TLC evaluation of seeded longer sequences"),
  "C04": dict(cat="model_checking", ref="§5 C04, §4.4",
    text="DvidPersist.tla: TLC explores a Crash between any two steps (in-memory step or store write) of every repo-level request, Recover (loadMetadata with its repairs) and a second crash during recovery, and checks Inv_C04_StartupSucceeds / Inv_C04_Recoverable (acknowledged facts visible, metadata well formed) and Inv_C12_CountersAhead. LogFrame.tla: every torn length of an append-only log yields exactly the complete records. Binding: the recorded store-write sequence of each request must equal the specification's program; then every store write N of a seeded multi-datatype workload is a crash point (process exit injected by the wrapping engine before and after the write, plus a second crash inside the recovery start-up): a new process must start, the metadata must be well formed and the canonical full snapshot must equal the fault-free reference after k or k+1 operations (all-or-nothing for repo-level/single-key operations; multi-key operations may be partial only inside their own instance). Filelog files are left torn at every byte length and read through ReadAll/StreamAll against LogFrame's expected record count.",
    note="Crash granularity is the store API call (a Badger transaction/batch is atomic by contract); torn Badger files are not injected. Known finding: POST repo/info alias+description is two saves.",
